@@ -1379,6 +1379,12 @@ void Backend::reset()
     // no active threads are allowed in backend while reset() called
     verify();
 
+    // Blocks whose coalescing was delayed must be forgotten: every region is made
+    // one free block below, a request left in the queue would later put its (by then
+    // re-used) memory into the bins a second time.
+    for (FreeBlock *bl = coalescQ.getAll(); bl; bl = bl->nextToFree)
+        coalescQ.blockWasProcessed();
+
     freeLargeBlockBins.reset();
     freeSlabAlignedBins.reset();
     advRegBins.reset();
